@@ -292,3 +292,7 @@ impl vstd::std_specs::convert::FromSpecImpl<Vec<Value>> for Value {
     open spec fn obeys_from_spec() -> bool { true }
     open spec fn from_spec(v: Vec<Value>) -> Value { Value::Array(Arc::new(v)) }
 }
+
+// std combinator without a vstd specification (so that ordinary edits keep compiling and are then decided)
+pub assume_specification<T, E>[ Result::<T, E>::unwrap_or ](r: Result<T, E>, default: T) -> (o: T)
+    ensures o == (match r { Ok(v) => v, Err(_) => default });
